@@ -1,0 +1,46 @@
+//go:build verif
+
+package walstore
+
+import (
+	"github.com/NethermindEth/juno/consensus/types"
+	pebblewal "github.com/cockroachdb/pebble/v2/wal"
+)
+
+// Verification seam, compiled only with the build tag "verif". It adds one exported function
+// and changes no existing identifier: a harness outside the package can interpose on the Pebble
+// WAL writer a store uses, to make a record write or its sync report an error (the store
+// hard-codes vfs.Default, so there is no other way to reach the abortUncommitted path with a
+// real log directory).
+
+type verifManager struct {
+	pebblewal.Manager
+	wrap func(pebblewal.Writer) pebblewal.Writer
+}
+
+func (m verifManager) Create(wn pebblewal.NumWAL, jobID int) (pebblewal.Writer, error) {
+	w, err := m.Manager.Create(wn, jobID)
+	if err != nil {
+		return w, err
+	}
+	return m.wrap(w), nil
+}
+
+// VerifInterposeWriter routes the store's current WAL writer (if one is open) and every writer
+// its manager creates from now on through wrap. It reports false for a foreign implementation.
+func VerifInterposeWriter[V types.Hashable[H], H types.Hash, A types.Addr](
+	store TendermintWALStore[V, H, A],
+	wrap func(pebblewal.Writer) pebblewal.Writer,
+) bool {
+	s, ok := store.(*tendermintWALStore[V, H, A])
+	if !ok {
+		return false
+	}
+	s.mu.Lock()
+	defer s.mu.Unlock()
+	s.wal.manager = verifManager{Manager: s.wal.manager, wrap: wrap}
+	if s.wal.writer != nil {
+		s.wal.writer = wrap(s.wal.writer)
+	}
+	return true
+}
